@@ -4,6 +4,7 @@ import Driver.LexCmd
 import Driver.LoaderCmd
 import Driver.ParseCmd
 import Driver.RunCmd
+import Driver.ObjCmd
 /-!
 # Line-protocol driver over the executable models
 
@@ -23,6 +24,9 @@ def step (s : DState) (line : String) : DState × String :=
   | ["loader", h] => (s, loaderLine h)
   | ["parse", h] => (s, parseLine h)
   | ["run", h, e, d] => (s, runLine h e d)
+  | ["obj", h, a] => (s, objLine h a)
+  | ["ovl", c, a] => (s, ovlLine c a)
+  | ["gen", t] => (s, genLine t)
   | _ => (s, "bad-op")
 
 partial def loop (h : IO.FS.Stream) (out : IO.FS.Stream) (s : DState) : IO Unit := do
